@@ -24,10 +24,49 @@ def _preorder(node):
         yield from _preorder(c)
 
 
+def _reachable_arrays(ex):
+    out = {}
+    env = ex.frames[-1].env
+    for nm, v in list(env.items()):
+        if isinstance(v, SymArr):
+            out[id(_root(v))] = (_root(v), nm)
+        elif isinstance(v, Obj) and nm == "self":
+            for f, w in v.fields.items():
+                if isinstance(w, SymArr):
+                    out[id(_root(w))] = (_root(w), "self." + f)
+    return out
+
+
+def _root(a):
+    while a.base is not None:
+        a = a.base
+    return a
+
+
 def exec_for(ex, st):
+    """`for` statement.  Ghost protocol for distributed loops: arrays written inside a loop over a block-distributed
+    range hold per-process partial results until they pass through allreduce (checked when the region is closed)."""
     if ex.guard is not True:
         raise MergeAbort("loop under guard")
     it = ex.eval(st.iter)
+    if getattr(it, "distributed", False) and not getattr(ex, "_in_distributed_loop", False):
+        before = {k: (a, a.re, a.im) for k, (a, nm) in _reachable_arrays(ex).items()}
+        ex._in_distributed_loop = True
+        try:
+            _exec_for_inner(ex, st, it)
+        finally:
+            ex._in_distributed_loop = False
+        part = ex.__dict__.setdefault("partial_results", {})
+        for k, (a, nm) in _reachable_arrays(ex).items():
+            b = before.get(k)
+            if b is None or not (b[1] is a.re or (b[1] is not None and a.re is not None and b[1].eq(a.re))) \
+                    or not (b[2] is a.im or (b[2] is not None and a.im is not None and b[2].eq(a.im))):
+                part[k] = (a, nm, st.lineno)
+        return
+    return _exec_for_inner(ex, st, it)
+
+
+def _exec_for_inner(ex, st, it):
     if isinstance(it, OptDict) and it.maybe and _guarded_key_loop(ex, st, it):
         return
     items = _concrete_items(ex, it, st.lineno)
